@@ -26,6 +26,7 @@ import Driver.OpsServe
 import Driver.OpsLegal
 import Driver.OpsMCTSPolicy
 import Driver.OpsCmd
+import Driver.OpsCmd2
 import Driver.OpsCompose
 import Driver.OpsCheck
 namespace Driver
@@ -58,6 +59,7 @@ def handlers : List Handler := [
   handleLegal,
   handleMCTSPolicy,
   handleCmd,
+  handleCmd2,
   handleCompose,
   handleCheck,
 ]
